@@ -763,7 +763,9 @@ pub fn mutate_body(doc: &[u8], rng: &mut Rng, allow_invalid_utf8: bool) -> Vec<u
                 }
             }
             3 => {
-                let pieces: [&[u8]; 12] = [b"<", b">", b"</", b"<!--", b"-->", b"\"", b"'", b"<div>", b"</div>", b"<script>", b"</body>", b" "];
+                let pieces: [&[u8]; 18] = [
+                    b"<", b">", b"</", b"<!--", b"-->", b"\"", b"'", b"<div>", b"</div>", b"<script>", b"</body>", b" ", b"</br>", b"</meta>", b"<br/>", b"</p>", b" < ", b"<x-y/>",
+                ];
                 let p = pieces[rng.below(pieces.len())];
                 for (i, b) in p.iter().enumerate() {
                     v.insert(at + i, *b);
